@@ -22,7 +22,7 @@ O == [obs.obs EXCEPT !.accepted = Range(@), !.errfls = Range(@)]
 IsCall == obs.ev = "call"
 C19_ObsResolution == IsCall => C19_Resolution(inp, O)
 C19_ObsFallback == IsCall => C19_Fallback(inp, O)
-C19_ObsLocalhost == IsCall => C19_Localhost(inp, O)
+C19_ObsLocalhost == IsCall => (C19_Localhost(inp, O) /\ C19_DefaultFails(inp, O))
 C19_ObsTls == IsCall => C19_Tls(inp, O)
 TraceAccepted ==
   LET n == TLCGet("stats").diameter - 1 IN
